@@ -5,3 +5,4 @@ cd "$(dirname "$0")/harness"
 export CARGO_NET_OFFLINE=true
 cargo build --release --offline -p mon
 cargo build --release --offline -p mon --features grammar-extras
+cargo build --release --offline -p mon_fixed
